@@ -100,3 +100,44 @@ def run_subprocess_fifo(argv, fifo_path, data, timeout=120):
             pass
         th.join(2)
     return p.returncode, out.decode("utf-8", "replace"), err.decode("utf-8", "replace")
+
+
+def run_subprocess_pty(argv, cols=100, rows=30, timeout=120):
+    """the CLI with its stdout connected to a terminal of the given size (a user at a terminal, not a pipe)"""
+    import fcntl
+    import pty
+    import struct
+    import termios
+    master, slave = pty.openpty()
+    fcntl.ioctl(slave, termios.TIOCSWINSZ, struct.pack("HHHH", rows, cols, 0, 0))
+    env = dict(os.environ)
+    env["PYTHONPATH"] = os.environ.get("VERIF_REPO_SRC", "/repo/src")
+    env["PYTHONDONTWRITEBYTECODE"] = "1"
+    env["TERM"] = "xterm"
+    env.pop("COLUMNS", None)
+    env.pop("LINES", None)
+    p = subprocess.Popen([sys.executable, "-m", "tpmstream"] + list(argv), stdin=subprocess.DEVNULL, stdout=slave, stderr=subprocess.PIPE, env=env, cwd="/", close_fds=True)
+    os.close(slave)
+    chunks = []
+    import select
+    import time
+    t0 = time.time()
+    while True:
+        r, _, _ = select.select([master], [], [], 0.5)
+        if r:
+            try:
+                d = os.read(master, 65536)
+            except OSError:
+                break
+            if not d:
+                break
+            chunks.append(d)
+        elif p.poll() is not None:
+            break
+        if time.time() - t0 > timeout:
+            p.kill()
+            break
+    os.close(master)
+    err = p.stderr.read().decode("utf-8", "replace")
+    p.wait()
+    return p.returncode, b"".join(chunks).decode("utf-8", "replace").replace("\r\n", "\n"), err
